@@ -251,6 +251,85 @@ Theorem C06_LA_pipe_btr_cer_sound :
 Proof. exact pipe_btr_cer_sound. Qed.
 Print Assumptions C06_LA_pipe_btr_cer_sound.
 
+(* ---------------------------------------------------------------- fourth round: UINR / UTFR / the fake-goal compile as
+   stages, the pipelines "grounder+negative-conditions" and "usertype+quantifiers+disjunctive" of compcheck *)
+Require Import UPV.Compilers.LayerA_Uinr UPV.Compilers.LayerA_Utfr.
+
+Theorem C06_LA_pipe_uinr_stage_sound :
+  forall (umap : list (N * N)) (P : problem), uinr_ok umap P = true -> stage_sound (uinr_stage umap P).
+Proof. exact uinr_stage_sound. Qed.
+Print Assumptions C06_LA_pipe_uinr_stage_sound.
+
+(* Q = any per-step condition a later stage asks of the (common) plan *)
+Theorem C06_LA_pipe_utfr_stage_sound :
+  forall (tr smp : expr -> expr) (P : problem) (G : state -> Prop) (Q : pstep -> Prop),
+    smp_exact smp -> utfr_wf tr smp P = true -> tr_ok tr P -> effects_defined P G -> LayerA_Utfr.one_value P G ->
+    closed P G -> unique_ids P -> stage_sound (utfr_stage tr smp G Q P).
+Proof. exact utfr_stage_sound. Qed.
+Print Assumptions C06_LA_pipe_utfr_stage_sound.
+
+(* the fake-goal compile as a stage (relation [dcrg_rel]: agree off fk, G, invariants, "fk true only where the goals
+   hold"; established by the compiled initial state: [C06_LA_pipe_dcrg_rel_init]) *)
+Theorem C06_LA_pipe_dcrg_stage_sound :
+  forall (cdnf : expr -> list expr) (pre_dnf : action -> list (list expr)) (nm : N -> nat -> N) (fk : N)
+         (gnm : nat -> N) (gds : list (list expr)) (P : problem),
+    unique_ids P -> unique_ids (dcrg_compile cdnf pre_dnf nm fk gnm gds P) ->
+    dcrg_fresh cdnf pre_dnf nm fk gds P = true ->
+  forall G : state -> Prop,
+    (forall s aid a args t, G s -> lookup_action P aid = Some a -> spec_step false P s a args = Some t -> G t) ->
+    (forall s args i a, G s -> In (i, a) (p_actions P) -> Forall (dnf_effect_ok cdnf P s a args) (a_effs a)) ->
+    (forall s args i a, G s -> In (i, a) (p_actions P) ->
+       existsb (all_hold false (mk_interp P s (zip_params (a_params a) args))) (pre_dnf a) =
+       all_hold false (mk_interp P s (zip_params (a_params a) args)) (a_pre a)) ->
+    (forall s, G s -> existsb (all_hold false (mk_interp P s [])) gds = all_hold false (mk_interp P s []) (p_goals P)) ->
+    stage_sound (dcrg_stage cdnf pre_dnf nm fk gnm gds G P).
+Proof. exact dcrg_stage_sound. Qed.
+Print Assumptions C06_LA_pipe_dcrg_stage_sound.
+
+Theorem C06_LA_pipe_dcrg_rel_init :
+  forall (fk : N) (G : state -> Prop) (P : problem) (s : state),
+    G s -> invariants_ok false P s = true -> dcrg_rel fk G P s (with_fk fk s).
+Proof. exact dcrg_rel_init. Qed.
+Print Assumptions C06_LA_pipe_dcrg_rel_init.
+
+(* CLOSED THEOREM for CompilersPipeline([Grounder(), NegativeConditionsRemover()]) — "pipeline:grounder+negative-conditions" *)
+Theorem C06_LA_pipe_ground_ncr_sound :
+  forall (smp : expr -> expr) (tuples : N -> list (list value)) (gnm : N -> nat -> N) (P : problem) (G1 : state -> Prop),
+    smp_exact_on P G1 smp -> unique_ids P -> unique_ids (ground_compile smp tuples gnm P) ->
+    (forall s aid a args t, G1 s -> lookup_action P aid = Some a -> spec_step false P s a args = Some t -> G1 t) ->
+    instances_ok smp tuples P ->
+  forall (nmap : list (N * N)) (rw smp2 : expr -> expr),
+    nmap_ok nmap (ground_compile smp tuples gnm P) = true -> problem_clean nmap (ground_compile smp tuples gnm P) = true ->
+    ncr_safe nmap (ground_compile smp tuples gnm P) = true -> rw_ok nmap rw (ground_compile smp tuples gnm P) ->
+    smp_exact smp2 ->
+  forall (s0 s0' : state) (pi' : pplan), G1 s0 -> neg_rel nmap s0 s0' ->
+    valid_plan false (neg_compile nmap rw smp2 (ground_compile smp tuples gnm P)) s0' pi' = true ->
+    valid_plan false P s0 (pback (pipeline_back (gn_stages smp tuples gnm G1 nmap rw smp2 P)) pi') = true.
+Proof. exact pipe_ground_ncr_sound. Qed.
+Print Assumptions C06_LA_pipe_ground_ncr_sound.
+
+Theorem C06_LA_pipe_ground_ncr_back :
+  forall (smp : expr -> expr) (tuples : N -> list (list value)) (gnm : N -> nat -> N) (P : problem) (G1 : state -> Prop)
+         (nmap : list (N * N)) (rw smp2 : expr -> expr) (pi' : pplan),
+    pback (pipeline_back (gn_stages smp tuples gnm G1 nmap rw smp2 P)) pi' =
+    gt_map_back (ground_table smp tuples gnm P) pi'.
+Proof. exact gn_pback. Qed.
+Print Assumptions C06_LA_pipe_ground_ncr_back.
+
+(* "pipeline:usertype+quantifiers+disjunctive" (UsertypeFluentsRemover -> QuantifiersRemover -> DisjunctiveConditionsRemover
+   with a disjunctive goal): the three stages FIT ([linked]: problems chain and every stage hands the next one the
+   per-step condition it asks for), so the soundness of the stages (C06_LA_pipe_utfr_stage_sound,
+   C06_LA_pipe_quant_stage_sound, C06_LA_pipe_dcrg_stage_sound) gives the soundness of the pipeline *)
+Theorem C06_LA_pipe_uqd_sound :
+  forall (tr smp1 smp : expr -> expr) (G0 G2 : state -> Prop) (cdnf : expr -> list expr)
+         (pre_dnf : action -> list (list expr)) (nm : N -> nat -> N) (fk : N) (gnm : nat -> N) (gds : list (list expr))
+         (P : problem),
+    Forall stage_sound (uqd_stages tr smp1 G0 smp cdnf pre_dnf nm fk gnm gds G2 P) ->
+    stage_sound (compose_all (uqd_stages tr smp1 G0 smp cdnf pre_dnf nm fk gnm gds G2 P)
+                             (uqd_dst tr smp1 smp cdnf pre_dnf nm fk gnm gds P)).
+Proof. exact pipe_uqd_sound. Qed.
+Print Assumptions C06_LA_pipe_uqd_sound.
+
 (* ---------------------------------------------------------------- non-vacuity *)
 Module LP.
   Definition idsmp (e : expr) : expr := e.
